@@ -103,6 +103,17 @@ def run(tier):
             for ok in (outkinds if (full or pi < 3) else rnd.sample(outkinds, 3)):
                 for src in ("FILE", "stdin"):
                     add(prog, valid, fs, ok, src, {"c": rnd.choice([4, 5, 8, 16, 64])})
+    # several preset flags on one command line: they are asm_set_all() calls in command-line order (asm_set_all(SMART) leaves the
+    # SIB dimensions alone, so '-t -s' is not '-s'); on programs that contain the four option-sensitive probe lines
+    import itertools
+    presets = ["-n", "-t", "-s"]
+    pseqs = [list(x) for x in itertools.product(presets, repeat=2)] + [list(x) for x in itertools.product(presets, repeat=3)][:: (1 if full else 4)]
+    pseqs += [["--strict", "--smart"], ["--nasm", "--strict", "--smart"], ["-t", "--smart"], ["--strict", "-s", "-s"]]
+    probe_progs = [pv for pv in progs if pv[0][:len(PROBE)] == PROBE][:3 if not full else 12]
+    for fs in pseqs:
+        for prog, valid in probe_progs:
+            for ok in (outkinds if full else rnd.sample(outkinds, 2)):
+                add(prog, valid, fs, ok, rnd.choice(["FILE", "stdin"]), {"c": rnd.choice([4, 8, 16])})
     for body, want in execs:
         for src in ("FILE", "stdin"):
             add(body, True, [], "-r", src, {"want": want})
